@@ -3,6 +3,7 @@ package vpreconf
 import (
 	"fmt"
 	"math/rand/v2"
+	"os"
 	"strings"
 	"testing"
 
@@ -65,7 +66,7 @@ type heldView struct {
 	first   uint64
 	blocks  mChain
 	baseID  uint64
-	rehash1 bool
+	same    bool // same entry objects as the previous step's view (hash reused)
 }
 
 type seqRun struct {
@@ -78,6 +79,10 @@ type seqRun struct {
 	rng     *rand.Rand
 	held    []*heldView
 	failed  bool
+	// entries of the views fully checked since the last state change, by first
+	// slot: a later step that changed nothing and sees the very same entry
+	// objects needs no second content / lookup / overlay pass
+	seen map[uint64][]*pending.PreConfirmed
 }
 
 func (q *seqRun) violate(class string, stepIdx int, detail string, extra any) {
@@ -107,6 +112,17 @@ func (q *seqRun) checkView(stepIdx int, first uint64, want mChain, canon []*cano
 		q.r.Count("views_empty", 1)
 		return &view
 	}
+	if prev, ok := q.seen[first]; ok && len(prev) == len(entries) {
+		same := true
+		for i := range prev {
+			same = same && prev[i] == entries[i]
+		}
+		if same {
+			q.r.Count("views_identical_to_already_checked_view", 1)
+			return &view
+		}
+	}
+	q.seen[first] = entries
 	q.r.Count(fmt.Sprintf("view_length_%d", min(len(want), 6)), 1)
 	for i, e := range entries {
 		if p := compareEntry(e, want[i]); p != "" {
@@ -197,7 +213,7 @@ func (q *seqRun) recheckHeld(stepIdx int, hv *heldView, canon []*canonBlock, fin
 func runSequential(r *lib.Run, idx int) {
 	rng := lib.Rng("C20/seq", uint64(idx))
 	s := genScript(rng, 70+rng.IntN(60))
-	q := &seqRun{r: r, idx: idx, mode: "sequential", s: s, real: newCanonReal(), storage: preconfirmed.NewChainStorage(), rng: rng}
+	q := &seqRun{r: r, idx: idx, mode: "sequential", s: s, real: newCanonReal(), storage: preconfirmed.NewChainStorage(), rng: rng, seen: map[uint64][]*pending.PreConfirmed{}}
 	for _, d := range s.Genesis {
 		if err := q.real.advance(d); err != nil {
 			r.Inconclusive("canonical-chain-build-failed")
@@ -252,6 +268,9 @@ func runSequential(r *lib.Run, idx int) {
 			return
 		}
 		chain := st.After
+		if st.Out == outApplied {
+			q.seen = map[uint64][]*pending.PreConfirmed{}
+		}
 		// (1) the whole stored chain against the model
 		if len(chain) > 0 {
 			if q.checkView(i, chain.oldest(), chain, st.Canon, false) == nil {
@@ -280,7 +299,12 @@ func runSequential(r *lib.Run, idx int) {
 		if view.Length() > 0 {
 			overlays++
 		}
-		hv := &heldView{view: *view, hash: viewHash(view), step: i, first: h + 1, blocks: chain.suffix(h + 1), baseID: st.Canon[h].ID}
+		hv := &heldView{view: *view, step: i, first: h + 1, blocks: chain.suffix(h + 1), baseID: st.Canon[h].ID}
+		if i > 0 && st.Out != outApplied && sameEntries(&q.held[i-1].view, view) {
+			hv.hash, hv.same = q.held[i-1].hash, true
+		} else {
+			hv.hash = viewHash(view)
+		}
 		q.held = append(q.held, hv)
 		// (3) a reader that aligned to an older head (storage not yet re-aligned,
 		// or the reader is slow): any in-range slot at or below head+1
@@ -291,8 +315,21 @@ func runSequential(r *lib.Run, idx int) {
 			}
 			r.Count("views_aligned_to_older_head", 1)
 		}
-		// (4) immutability of views taken >= 50 writer operations ago
-		if i >= rehashAfterOps {
+		// (4) immutability: the view of the previous step across exactly this
+		// operation (pins the mutating operation), and views taken >= 50 writer
+		// operations ago
+		if i >= 1 {
+			if prev := q.held[i-1]; prev.view.Length() > 0 {
+				r.Eval(1)
+				if h2 := viewHash(&prev.view); h2 != prev.hash {
+					q.violate("immutability:view-hash-changed", i,
+						fmt.Sprintf("view taken just before this operation (from %d, %d blocks) has structural hash %s after it, was %s", prev.first, len(prev.blocks), h2, prev.hash), nil)
+					return
+				}
+				r.Count("held_views_rehashed_across_next_op", 1)
+			}
+		}
+		if i >= rehashAfterOps && !q.held[i-rehashAfterOps].same {
 			q.recheckHeld(i, q.held[i-rehashAfterOps], st.Canon, false)
 			if q.failed {
 				return
@@ -300,7 +337,10 @@ func runSequential(r *lib.Run, idx int) {
 		}
 	}
 	last := len(s.Steps) - 1
-	for _, hv := range q.held {
+	for k, hv := range q.held {
+		if hv.same || k+rehashAfterOps <= last { // same objects as an earlier held view / already re-taken at +50
+			continue
+		}
 		q.recheckHeld(last, hv, s.Steps[last].Canon, true)
 		if q.failed {
 			return
@@ -314,6 +354,24 @@ func runSequential(r *lib.Run, idx int) {
 		r.Sample(map[string]any{"mode": "sequential", "case": idx, "steps": len(s.Steps), "max_chain_length": maxLen,
 			"script": s.describe(24), "example_wire_update": exampleWire(s)})
 	}
+}
+
+func sameEntries(a, b *preconfirmed.ChainReader) bool {
+	if a.Length() != b.Length() {
+		return false
+	}
+	var ea []*pending.PreConfirmed
+	for e := range a.NewestFirst() {
+		ea = append(ea, e)
+	}
+	i := 0
+	for e := range b.NewestFirst() {
+		if ea[i] != e {
+			return false
+		}
+		i++
+	}
+	return true
 }
 
 func exampleWire(s *script) string {
@@ -330,10 +388,27 @@ func TestC20(t *testing.T) {
 		t.Fatalf("feeder fixtures not readable: %v", err)
 	}
 	r := lib.Start("C20", "exploration")
-	nSeq := r.N(400, 20000)
-	r.Cases(nSeq, 0, func(idx int) { runSequential(r, idx) })
-	nConc := r.N(40, 1000)
-	r.Cases(nConc, 4, func(idx int) { runConcurrent(r, idx) })
+	// VERIF_C20_MODES (debugging aid): comma list out of seq,conc,poll
+	modes := os.Getenv("VERIF_C20_MODES")
+	on := func(m string) bool { return modes == "" || strings.Contains(modes, m) }
+	nSeq := r.N(240, 15000)
+	if on("seq") {
+		r.Cases(nSeq, 0, func(idx int) { runSequential(r, idx) })
+	}
+	if on("conc") {
+		n := r.N(32, 1000)
+		if r.Race { // the interleavings matter most under the race detector
+			n = max(n, 6)
+		}
+		r.Cases(n, 4, func(idx int) { runConcurrent(r, idx) })
+	}
+	if on("poll") {
+		n := r.N(12, 500)
+		if r.Race {
+			n = max(n, 3)
+		}
+		r.Cases(n, 4, func(idx int) { runPoller(r, idx) })
+	}
 	r.Assume("the canonical chain underneath (blockchain.Blockchain head / historical state reads on the memory DB, legacy state) answers correctly - that is C03's subject; here it is only the base of the overlay")
 	r.Assume("single writer, as documented for ChainStorage (the poller goroutine); readers are arbitrary")
 	r.Finish("sequential model-based scripts", max(1, nSeq/4))
